@@ -11,14 +11,10 @@ ASSUME = [
 ]
 
 
-def gen_cases(run, sample=0):
+def gen_cases(run, pairs=True):
     cfg = "GenDiff"
-    files = None
-    if sample:
-        # same config, Sample constant overridden
-        txt = open(os.path.join(SPEC, "cfg", "GenDiff.cfg")).read().replace("Sample = 0", "Sample = %d" % sample)
-        os.makedirs(run.path("cfgtmp"), exist_ok=True)
-    r = run.tlc("GenDiff", cfg, workers=1, timeout=600, extra=["-seed", str(run.seed)])
+    r = run.tlc("GenDiff", cfg, workers=1, timeout=900, extra=["-seed", str(run.seed)],
+                cfg_subst={"WithPairs = TRUE": "WithPairs = %s" % ("TRUE" if pairs else "FALSE")})
     if not r["ok"]:
         raise Infra("GenDiff model check failed: %s" % r["out"][-2000:])
     cases = [e for t, e in r["emitted"] if t == "CASE"]
@@ -46,10 +42,10 @@ def check(run, replay=None):
     mc = run.tlc("MCDiffPipeline", "MCDiffPipeline", workers=4, timeout=600)
     if not mc["ok"]:
         raise Infra("pipeline design check failed: " + mc["out"][-2000:])
-    cases, gen = gen_cases(run)
-    rnd = random.Random(run.seed)
     if prop == "C12":
         return check_c12(run, vh, swagger, mc)
+    cases, gen = gen_cases(run)
+    rnd = random.Random(run.seed)
     if run.tier == "quick" and prop in ("C15",):
         # process spawns dominate C15: a seeded sample of the pairs, every kind represented
         bykind = {}
@@ -104,7 +100,7 @@ def check_c12(run, vh, swagger, mc):
     quick = run.tier == "quick"
     os.makedirs(run.path("w"), exist_ok=True)
     # ---- part 1: totality on every pair of the DiffCases universe (TLC-generated documents)
-    cases, gen = gen_cases(run)
+    cases, gen = gen_cases(run, pairs=not quick)
     cpath = run.path("cases.ndjson"); write_ndjson(cpath, cases)
     t1 = run.path("trace1.ndjson")
     run.sh([vh, "diff-drive", "-cases", cpath, "-out", t1, "-swagger", "" if quick else swagger, "-work", run.path("w"),
